@@ -69,11 +69,23 @@ func driveBuffers(c *driverCtx) error {
 				}
 				c.rec.Emit(key, map[string]any{"op": op, "arg": arg, "out": out, "res": byteList(res), "len": r.Len()})
 			case 2:
-				b, err := r.ReadByte()
-				c.rec.Emit(key, map[string]any{"op": "rb_byte", "out": errOutcome(err), "res": []int{int(b)}, "len": r.Len()})
+				var b byte
+				var err error
+				out := "panic"
+				if catch(func() { b, err = r.ReadByte() }) == "" {
+					out = errOutcome(err)
+				}
+				c.rec.Emit(key, map[string]any{"op": "rb_byte", "out": out, "res": []int{int(b)}, "len": r.Len()})
 			case 3, 4:
-				v, err := r.Varint()
-				c.rec.Emit(key, map[string]any{"op": "rb_varint", "out": errOutcome(err), "res": projectValue(reflect.ValueOf(v))["b"], "len": r.Len()})
+				var v int64
+				var err error
+				out := "panic"
+				if catch(func() { v, err = r.Varint() }) == "" {
+					out = errOutcome(err)
+				} else {
+					err = fmt.Errorf("panic")
+				}
+				c.rec.Emit(key, map[string]any{"op": "rb_varint", "out": out, "res": projectValue(reflect.ValueOf(v))["b"], "len": r.Len()})
 				if err != nil {
 					data = mk()
 					r.Reset(data)
